@@ -300,12 +300,12 @@ def run(res, proof):
     res.traces = res.evaluations
     # the legacy methods as translated from the working tree (Gen/PyLegacy.lean) against the real legacy objects
     from .pylegacy_stream import source_derived_pylegacy
-    source_derived_pylegacy(res, proof)
+    core.run_stream(source_derived_pylegacy, res, proof)
     from .pylegacyreg_stream import source_derived_pylegacyreg
-    source_derived_pylegacyreg(res, proof)
+    core.run_stream(source_derived_pylegacyreg, res, proof)
     # the whole legacy constructor as translated from the working tree (Gen/PyLegacyInit.lean; no equality theorem yet): ID / NAMES / MEMORY after every construction
     from .pylegacyinit_stream import source_derived_pylegacyinit
-    source_derived_pylegacyinit(res, proof)
+    core.run_stream(source_derived_pylegacyinit, res, proof)
     res.sample({'seq': 'a b + a', 'sst': '(.+)'})
 
 
